@@ -16,6 +16,11 @@ func init() {
 		c.Explain("C10: the success return of ClientExchange.Run is dominated by the accepting edge of every authentication check, each identified by the values it compares (not by position): (R1) for every server message type decoded on the path (ResPQ, ServerDHParamsOk, ServerDHInnerData, DhGenOk) every field named Nonce/ServerNonce is compared with the client's nonce (crypto.RandInt128) / the ResPQ server nonce — obligations generated from the mt types; (R2) DhGenOk.NewNonceHash1 == NonceHash1(newNonce, key) with the key that is returned; (R3) the RSA key comes from c.keys under a fingerprint match and a zero key rejects; (R4) DecryptExchangeAnswer, CheckDH, CheckDHParams succeed on values taken from the decrypted inner data, and the returned key is g_a^b mod dh_prime of those checked values; (R5) CheckDH/CheckGP/checkPrime/CheckDHParams contain their checks; (R6) error returns carry a zero result.")
 		c.NotCover("strength of RSA/DH; behaviour of an adaptive adversary; the server flow (test double)")
 		c10(c)
+		// 'unsafe DH parameters are always refused' — the DH parameter rules of C13 are part of this property too
+		c13R1(c)
+		c13R2(c)
+		c13R3(c)
+		c13R4(c)
 	})
 }
 
